@@ -91,6 +91,10 @@ func c11Run(c *Ctx, idx int) CaseResult {
 		if i >= len(classes) {
 			class = classes[r.Intn(len(classes))]
 		}
+		// every third store is stale-heavy: several stale Running plans next to each other in search order
+		if idx%3 == 0 && i >= 2 && r.Intn(10) < 7 {
+			class = "running-stale"
+		}
 		var ps spec.Plan
 		for try := 0; ; try++ {
 			ps = crashRandPlan(r)
@@ -312,7 +316,7 @@ func c11Run(c *Ctx, idx int) CaseResult {
 func init() {
 	register(&Prop{
 		ID: "C11", Level: "exploration", Batch: 4, PerCaseTimeout: 120 * time.Second,
-		Rule:  "case i = one store with 3-8 plans: never started, Completed, Failed, Running with recent activity (a reachable write-prefix state), Running with every state time shifted into the past by {max+1min, 10*max} through the vault's Update* calls; configuration i mod 4 in {WithMaxLastUpdate(1 min), default 30 min, 2 h, WithNoRecovery}; fresh ages {0, max-1min}; a recording vault and the scripted plugins observe writes and invocations per plan; distinct by (configuration, per-plan class/prefix/age)",
+		Rule:  "case i = one store with 3-8 plans (every third store stale-heavy: several stale Running plans adjacent in search order): never started, Completed, Failed, Running with recent activity (a reachable write-prefix state), Running with every state time shifted into the past by {max+1min, 10*max} through the vault's Update* calls; configuration i mod 4 in {WithMaxLastUpdate(1 min), default 30 min, 2 h, WithNoRecovery}; fresh ages {0, max-1min}; a recording vault and the scripted plugins observe writes and invocations per plan; distinct by (configuration, per-plan class/prefix/age)",
 		Cases: nCases(48, 1200),
 		Run:   c11Run,
 		RaceAttr: raceHas("execute.(*recover)", "execute.runningToFailed", "execute.lastUpdate"),
